@@ -346,8 +346,8 @@ def rightFlow (hi : Nat) : Flow :=
 def OneSide (lo hi : Nat) (r : Rg) (f : AV) : Prop :=
   (RgP (leftFlow lo) r ∧ AllPos (leftFlow lo) f) ∨ (RgP (rightFlow hi) r ∧ AllPos (rightFlow hi) f)
 
-/-- the region does not reach into `[lo, hi)` (a region that starts at NoPos is ignored by the comment filter) -/
-def clearOfStretch (lo hi : Nat) (r : Rg) : Prop := r.stop ≤ lo ∨ r.pos = 0 ∨ hi ≤ r.pos
+/-- the region does not reach into `[lo, hi)` -/
+def clearOfStretch (lo hi : Nat) (r : Rg) : Prop := r.stop ≤ lo ∨ hi ≤ r.pos
 
 /-- every element of the old list that is not paired as identical lies, with its region, on one side of `[lo, hi)` -/
 def Sep (lo hi : Nat) : List AV → List Rg → List Fate → Prop
@@ -386,7 +386,7 @@ theorem walkFates_clear (lo hi : Nat) : ∀ (fl : List AV) (rl : List Rg) (ftl :
         rcases List.mem_append.1 hr with h1 | h1
         · rcases h0 with ⟨hr0, hf⟩ | ⟨hr0, hf⟩
           · exact Or.inl (walk_P _ f r0 _ hr0 hf r h1).2
-          · exact Or.inr (Or.inr (walk_P _ f r0 _ hr0 hf r h1).1)
+          · exact Or.inr (walk_P _ f r0 _ hr0 hf r h1).1
         · exact walkFates_clear lo hi fs rs fts _ hrest r h1
       · simp only [] at hr
         exact walkFates_clear lo hi fs rs fts _ hrest r hr
@@ -395,7 +395,7 @@ theorem walkFates_clear (lo hi : Nat) : ∀ (fl : List AV) (rl : List Rg) (ftl :
       rcases List.mem_cons.1 hr with rfl | h1
       · rcases h0 with ⟨hr0, _⟩ | ⟨hr0, _⟩
         · exact Or.inl hr0.2
-        · exact Or.inr (Or.inr hr0.1)
+        · exact Or.inr hr0.1
       · exact walkFates_clear lo hi fs rs fts _ hrest r h1
 
 /-- the same statement for `Walk` on a slice of nodes -/
